@@ -306,4 +306,22 @@ def runNestedAux (items : List Item) : List Ev → NSt → List Emit → NRes
 
 def runNested (items : List Item) (es : List Ev) : NRes := runNestedAux items es ⟨[], []⟩ []
 
+/-! ### `CombinatorStep.run` (all input ports terminate with `COMPLETED`)
+
+    `run` feeds every arriving token to `combinator.combine` and puts the tokens of every yielded schema on the output
+    port of the same name, in emission order; then it terminates every output port. -/
+
+/-- the data tokens put on output port `p`, in order -/
+def portLog (p : Nat) (out : List Emit) : List Tok := out.filterMap (fun e => e.lookup p)
+
+inductive StepStatus | completed | skipped
+deriving DecidableEq, Repr
+
+/-- `self._get_status(status)`: `SKIPPED` when some output port is empty, else `COMPLETED` (a data token arrived) -/
+def stepStatus (ports : List Nat) (out : List Emit) : StepStatus :=
+  if ports.any (fun p => (portLog p out).isEmpty) then .skipped else .completed
+
+/-- `input_token_ids` of `_persist_token`: the ids of all tokens of the schema (a token's value stands for its id) -/
+def schemaIds (e : Emit) : List Nat := e.map (fun x => x.2.val)
+
 end SFV.Comb
